@@ -212,7 +212,7 @@ def render_site(m, k, site, is_method):
     elif fn == "call_next":
         call = f"call_next({args})"
     elif fn == "next":
-        call = f"_F.next({pos})"
+        call = f"self.f.next({args})" if is_method else f"_F.next({args})"
     elif fn == "self":
         call = f"self.f({args})" if is_method else f"_F({args})"
     else:
